@@ -2,8 +2,8 @@ import OpusModel.SilkPlcConcealFix
 import OpusModel.SilkPlcGains
 import OpusModel.SilkParams.Lpc
 /-
-  OpusModel.SilkPlcConceal — bit-exact value model of silk/PLC.c: silk_PLC_Reset (:62-71), silk_PLC (:73-122),
-  silk_PLC_update (:127-200), silk_PLC_energy (:202-226), silk_PLC_conceal (:228-430).
+  OpusModel.SilkPlcConceal — bit-exact value model of silk/PLC.c: silk_PLC_Reset (:61-70), silk_PLC (:72-114),
+  silk_PLC_update (:119-190), silk_PLC_energy (:192-214), silk_PLC_conceal (:216-430).
 
   The scalar gain recursions (attenuation tables, first-lost-frame set-up of rand_scale_Q14 / rand_Gain_Q15,
   per-sub-frame attenuation) are `OpusModel.SilkPlcGains` (C09, imported read-only: `gainSetup`, `harmStep`,
@@ -59,7 +59,7 @@ structure Ctrl where
 
 /-! ### silk_PLC_Reset, the rate check of silk_PLC -/
 
-/-- `silk_PLC_Reset` (PLC.c:62-71). -/
+/-- `silk_PLC_Reset` (PLC.c:61-70). -/
 def plcReset (frameLength : Nat) (p : Plc) : Plc :=
   { p with pitchLQ8 := lshift32 frameLength 7, prevGain := [65536, 65536], subfrLength := 20, nbSubfr := 2 }
 
@@ -69,11 +69,11 @@ def plcRateCheck (d : Dec) : Plc :=
 
 /-! ### silk_PLC_update -/
 
-/-- `temp_LTP_Gain_Q14` (PLC.c:149-152): sum of the 5 taps of sub-frame `sf`. -/
+/-- `temp_LTP_Gain_Q14` (PLC.c:139-142): sum of the 5 taps of sub-frame `sf`. -/
 def ltpSum (ltp : List Int) (sf : Nat) : Int :=
   ((List.range LTP_ORDER).map fun i => ltp.getD (sf * LTP_ORDER + i) 0).foldl (· + ·) 0
 
-/-- The scan PLC.c:145-162 over `j = 0, 1, …` (at most `nb` iterations: `j == nb_subfr` breaks):
+/-- The scan PLC.c:135-151 over `j = 0, 1, …` (at most `nb` iterations: `j == nb_subfr` breaks):
     state `(LTP_Gain_Q14, pitchL_Q8)`; `n` = iterations left. -/
 def updScan (nb : Nat) (sl : Int) (pitchL ltp : List Int) : Nat → Nat → Int × Int → Int × Int
   | 0, _, s => s
@@ -83,7 +83,7 @@ def updScan (nb : Nat) (sl : Int) (pitchL ltp : List Int) : Nat → Nat → Int 
       updScan nb sl pitchL ltp n (j + 1) (if t > g then (t, lshift32 (pitchL.getD (nb - 1 - j) 0) 8) else (g, p))
     else (g, p)
 
-/-- PLC.c:164-188: the collapsed, limited `LTPCoef_Q14[5]` from `LTP_Gain_Q14`. -/
+/-- PLC.c:153-175: the collapsed, limited `LTPCoef_Q14[5]` from `LTP_Gain_Q14`. -/
 def updLtpCoef (g : Int) : List Int :=
   let c : List Int := [0, 0, wrap16 g, 0, 0]
   if g < V_PITCH_GAIN_START_MIN_Q14 then
@@ -94,7 +94,7 @@ def updLtpCoef (g : Int) : List Int :=
     c.map fun x => wrap16 (shrI (smulbb x scale) 14)
   else c
 
-/-- `silk_PLC_update` (PLC.c:127-200) on the rate-checked PLC state `p`. -/
+/-- `silk_PLC_update` (PLC.c:119-190) on the rate-checked PLC state `p`. -/
 def plcUpdate (d : Dec) (c : Ctrl) (p : Plc) : Dec :=
   let (pq8, coef) :=
     if d.signalType = TYPE_VOICED then
@@ -111,16 +111,16 @@ def plcUpdate (d : Dec) (c : Ctrl) (p : Plc) : Dec :=
 
 /-! ### silk_PLC_energy -/
 
-/-- `exc_buf` of sub-frame `k ∈ {0,1}` (PLC.c:213-219). -/
+/-- `exc_buf` of sub-frame `k ∈ {0,1}` (PLC.c:203-209). -/
 def energyBuf (d : Dec) (g10 : List Int) (k : Nat) : List Int :=
   (List.range d.subfrLength).map fun i =>
     sat16 (shrI (smulww (d.excQ14.getD (i + (k + d.nbSubfr - 2) * d.subfrLength) 0) (g10.getD k 0)) 8)
 
-/-- `silk_PLC_energy` (PLC.c:202-226): `((energy1, shift1), (energy2, shift2))`. -/
+/-- `silk_PLC_energy` (PLC.c:192-214): `((energy1, shift1), (energy2, shift2))`. -/
 def plcEnergy (d : Dec) (g10 : List Int) : (Int × Int) × (Int × Int) :=
   (sumSqrShift (energyBuf d g10 0), sumSqrShift (energyBuf d g10 1))
 
-/-- Offset of `rand_ptr` into `exc_Q14` (PLC.c:258-264). -/
+/-- Offset of `rand_ptr` into `exc_Q14` (PLC.c:262-268). -/
 def randPtrOff (p : Plc) (e : (Int × Int) × (Int × Int)) : Int :=
   if shrI e.1.1 e.2.2.toNat < shrI e.2.1 e.1.2.toNat then
     max 0 ((p.nbSubfr - 1) * p.subfrLength - RAND_BUF_SIZE)
@@ -128,21 +128,21 @@ def randPtrOff (p : Plc) (e : (Int × Int) × (Int × Int)) : Int :=
 
 /-! ### silk_PLC_conceal -/
 
-/-- `silk_LSHIFT( silk_SMULBB( MAX_PITCH_LAG_MS, fs_kHz ), 8 )` (PLC.c:360). -/
+/-- `silk_LSHIFT( silk_SMULBB( MAX_PITCH_LAG_MS, fs_kHz ), 8 )` (PLC.c:361). -/
 def maxPitchQ8 (fsKHz : Int) : Int := lshift32 (smulbb MAX_PITCH_LAG_MS fsKHz) 8
 
-/-- Pitch-lag drift of one sub-frame (PLC.c:359-360). -/
+/-- Pitch-lag drift of one sub-frame (PLC.c:360-361). -/
 def pitchDrift (fsKHz pq8 : Int) : Int := min (smlawb pq8 pq8 PITCH_DRIFT_FAC_Q16) (maxPitchQ8 fsKHz)
 
 /-- `lag = silk_RSHIFT_ROUND( pitchL_Q8, 8 )`. -/
 def lagOf (pq8 : Int) : Int := rshiftRound pq8 8
 
-/-- `LTP_pred_Q12` (PLC.c:334-339): bias 2, five `silk_SMLAWB` over `pred_lag_ptr[0], [-1], …`. -/
+/-- `LTP_pred_Q12` (PLC.c:337-342): bias 2, five `silk_SMLAWB` over `pred_lag_ptr[0], [-1], …`. -/
 def ltpPred (buf : Array Int) (p : Int) : List Int → Int → Int → Int
   | [], _, acc => acc
   | b :: bs, j, acc => ltpPred buf p bs (j + 1) (smlawb acc (agetI buf (p - j)) b)
 
-/-- One sub-frame of the LTP synthesis loop PLC.c:329-349: appends `subfr_length` samples to `buf`
+/-- One sub-frame of the LTP synthesis loop PLC.c:334-350: appends `subfr_length` samples to `buf`
     (`sLTP_Q14`; `sLTP_buf_idx = buf.size`). -/
 def ltpSubfr (rnd : Array Int) (roff : Int) (B : List Int) (rs lag : Int) : Nat → Array Int → Int → Array Int × Int
   | 0, buf, seed => (buf, seed)
@@ -152,7 +152,7 @@ def ltpSubfr (rnd : Array Int) (roff : Int) (B : List Int) (rs lag : Int) : Nat 
     let idx := shrI seed 25 % (RAND_BUF_MASK + 1)                      -- silk_RSHIFT( rand_seed, 25 ) & RAND_BUF_MASK
     ltpSubfr rnd roff B rs lag n (buf.push (lshift32 (smlawb pred (agetI rnd (roff + idx)) rs) 2)) seed
 
-/-- State carried across the sub-frame loop PLC.c:326-362. -/
+/-- State carried across the sub-frame loop PLC.c:331-363. -/
 structure LtpLoop where
   buf : Array Int
   seed : Int
@@ -161,7 +161,7 @@ structure LtpLoop where
   pq8 : Int
   deriving Repr
 
-/-- `nb_subfr` iterations of PLC.c:326-362. -/
+/-- `nb_subfr` iterations of PLC.c:331-363. -/
 def ltpLoop (rnd : Array Int) (roff : Int) (sl : Nat) (fsKHz harm rg : Int) : Nat → LtpLoop → LtpLoop
   | 0, s => s
   | k + 1, s =>
@@ -170,10 +170,10 @@ def ltpLoop (rnd : Array Int) (roff : Int) (sl : Nat) (fsKHz harm rg : Int) : Na
       { buf := r.1, seed := r.2, B := s.B.map (SilkPlcGains.harmStep harm), rs := SilkPlcGains.randStep s.rs rg,
         pq8 := pitchDrift fsKHz s.pq8 }
 
-/-- `idx` of PLC.c:306 (start of the re-whitened segment). -/
+/-- `idx` of PLC.c:318 (start of the re-whitened segment). -/
 def rewhitenIdx (d : Dec) (lag : Int) : Int := (d.ltpMemLength : Int) - lag - d.lpcOrder - (LTP_ORDER : Int) / 2
 
-/-- `sLTP_Q14[0 .. ltp_mem_length)` after PLC.c:306-315 (entries below `idx + LPC_order` are never written in C,
+/-- `sLTP_Q14[0 .. ltp_mem_length)` after PLC.c:318-326 (entries below `idx + LPC_order` are never written in C,
     never read either; they are 0 here). -/
 def rewhiten (d : Dec) (A : List Int) (lag invGainQ30 : Int) : Res (Array Int) :=
   let idx := rewhitenIdx d lag
@@ -193,14 +193,14 @@ structure ConcealOut where
   pitchL : List Int
   deriving Repr
 
-/-- `silk_PLC_conceal` (PLC.c:228-430) on the rate-checked PLC state `p0`. -/
+/-- `silk_PLC_conceal` (PLC.c:216-430) on the rate-checked PLC state `p0`. -/
 def plcConceal (d : Dec) (p0 : Plc) : Res ConcealOut :=
   let g10 := [shrI (p0.prevGain.getD 0 0) 6, shrI (p0.prevGain.getD 1 0) 6]
   let prevLPC0 := if d.firstFrameAfterReset ≠ 0 then List.replicate MAX_LPC_ORDER 0 else p0.prevLPC
   let e := plcEnergy d g10
   let roff := randPtrOff p0 e
   let voiced := decide (d.prevSignalType = TYPE_VOICED)
-  -- LPC concealment: bandwidth expansion of the previous LPC (PLC.c:277)
+  -- LPC concealment: bandwidth expansion of the previous LPC (PLC.c:283)
   let prevLPC := bwexp16 (prevLPC0.take d.lpcOrder) BWE_COEF_Q16 ++ prevLPC0.drop d.lpcOrder
   let A := prevLPC.take d.lpcOrder
   let invGain := if d.lossCnt = 0 ∧ ¬ voiced then lpcInversePredGain A else 0
@@ -226,7 +226,7 @@ def plcConceal (d : Dec) (p0 : Plc) : Res ConcealOut :=
   | .oob => .oob
   | .err e => .err e
 
-/-- `silk_PLC(psDec, psDecCtrl, frame, lost)` (PLC.c:73-122): new state; for a lost frame also the concealed
+/-- `silk_PLC(psDec, psDecCtrl, frame, lost)` (PLC.c:72-114): new state; for a lost frame also the concealed
     frame and the `pitchL` written into the control structure. -/
 def silkPLC (d : Dec) (c : Ctrl) (lost : Bool) : Res ConcealOut :=
   let p := plcRateCheck d
